@@ -31,6 +31,7 @@ type PropConfig struct {
 	Level       string     `json:"level,omitempty"`
 	Extra       []string   `json:"extra_checks,omitempty"` // names of built-in auxiliary analyses (k5, k6 …)
 	Templates   []TemplateCheck `json:"templates,omitempty"` // K6: SQL template lemmas
+	Transitions []TransitionCheck `json:"transitions,omitempty"` // K6b: guarded SQL state-machine updates
 }
 
 type BoundedCheck struct {
@@ -260,6 +261,21 @@ func cmdCheck(args []string) int {
 		assumed["DuckDB three-valued logic: WHERE keeps a row iff the filter is TRUE; NOT NULL = NULL; IS [NOT] TRUE and COALESCE as in the SQL standard (validated by the SQL replay on refutation)"] = true
 	}
 	var anyFn = firstFunc(p)
+	for _, tc := range cfg.Transitions {
+		frs, und := p.transitionObligations(tc, anyFn)
+		for _, u := range und {
+			undecidedFuncs = append(undecidedFuncs, u)
+			fmt.Printf("UNDECIDED transitions=%s reason=%s\n", tc.Name, u)
+		}
+		funcsUnder = append(funcsUnder, fmt.Sprintf("every UPDATE of %s.%s in %s (SQL transitions %s)", tc.Table, tc.Column, tc.PkgSuffix, tc.Name))
+		for _, fr := range frs {
+			for _, o := range fr.Obligations {
+				nameCount[o.Name]++
+				all = append(all, &oblResult{O: o, FR: fr})
+			}
+		}
+		assumed["SQL UPDATE … WHERE changes a row only if the whole WHERE clause is TRUE for it; positional `?` parameters bind in textual order (database/sql + SQLite)"] = true
+	}
 	for _, ln := range cfg.Lemmas {
 		fr := p.verifyLemma(ln, anyFn)
 		if fr.Err != nil {
